@@ -88,6 +88,16 @@ def cases(tier, seed):
             if name in BIG and len(plan) <= 2 and zlib.crc32(key.encode()) % 4 == 0:
                 # the same cut with the included files in a sub-directory (paths stay relative to the working directory)
                 yield {"k": "split", "base": name, "lines": lines, "plan": plan, "subdir": True}
+    # the same (label-free) file included more than once: twice from the main file, and once directly + once through another file
+    for name, lines in list(BIG.items()) + [("frag", ["START NOP", " LDA #1", " STA ,X+", "MID LEAX END1,PCR", " BNE START", " LDB #2", "END1 RTS", " JMP MID"])]:
+        n = len(lines)
+        for i in range(n):
+            for j in range(i + 1, min(n, i + 3) + 1):
+                if any(c13.split_fields(l) and c13.split_fields(l)[0] for l in lines[i:j]):
+                    continue        # a labelled slice cannot legally appear twice
+                for k in range(j, n + 1):
+                    for nested in (False, True):
+                        yield {"k": "twice", "base": name, "lines": lines, "slice": [i, j], "again": k, "nested": nested}
     for g in ("self", "cycle2", "cycle3", "missing", "missing.nested", "dir"):
         yield {"k": "error", "graph": g}
 
@@ -145,6 +155,33 @@ def check_case(case):
                 bad(cell, "command line: not a clean failure", "exit != 0, no file", "status={} files={}".format(status, created))
             res["state"] = cell + ":" + out["kind"]
             res["transitions"] = 2
+        elif case["k"] == "twice":
+            lines = case["lines"]
+            i, j = case["slice"]
+            k = case["again"]
+            frag = lines[i:j]
+            flat = lines[:k] + frag + lines[k:]
+            inc = "        INCLUDE frag.asm"
+            if case["nested"]:
+                main = lines[:i] + [inc] + lines[j:k] + ["        INCLUDE outer.asm"] + lines[k:]
+                files = {"frag.asm": frag, "outer.asm": [inc]}
+            else:
+                main = lines[:i] + [inc] + lines[j:k] + [inc] + lines[k:]
+                files = {"frag.asm": frag}
+            cell = "twice|{}|{}".format(case["base"], "nested" if case["nested"] else "flat")
+            ref = common.assemble_confirm(flat)
+            for fn, content in files.items():
+                open(fn, "w").write("".join(ln + "\n" for ln in content))
+            got = common.assemble_confirm(main)
+            if ref["kind"] != got["kind"]:
+                if ref["kind"] in ("OK", "DIAG"):
+                    bad(cell, "outcome differs from the spliced file", common.outcome_brief(ref)[:80], common.outcome_brief(got)[:80])
+            elif ref["kind"] == "OK" and (got["image"], got["addrs"], got["symbols"]) != (ref["image"], ref["addrs"], ref["symbols"]):
+                what = "image" if got["image"] != ref["image"] else "listing addresses" if got["addrs"] != ref["addrs"] else "symbol table"
+                bad(cell, what + " differs from the spliced file", ref["image"].hex()[:60], got["image"].hex()[:60])
+            res["state"] = "{}:{}:{}".format(cell, ref["kind"], zlib.crc32(ref["image"]) if ref["kind"] == "OK" else "")
+            res["nontrivial"] = ref["kind"] == "OK"
+            res["transitions"] = 2
         else:
             lines = case["lines"]
             main, files = materialise(lines, case["plan"], case.get("subdir", False))
@@ -183,7 +220,7 @@ def check_case(case):
         res["viol"] = viol[:2]
         res["outcome"] = "violation"
     if case["k"] == "error" or zlib.crc32(repr(case).encode()) % 3001 == 0:
-        res["sample"] = {"case": case if case["k"] == "error" else {"base": case["base"], "plan": case["plan"]}}
+        res["sample"] = {"case": case if case["k"] == "error" else {"base": case["base"], "plan": case.get("plan", case.get("slice"))}}
     return res
 
 
